@@ -101,6 +101,52 @@ func (t *trans) keyAssert(x *ast.TypeAssertExpr) (val, bool) {
 	return val{kind: "key", i: kt.tag, s: kt.short}, true
 }
 
+// "the string value v satisfies the element predicate p", as a term about what v was taken from: the loop element (p wrapped in
+// v's projections), a string field of the certificate (strP), a label of either (pFirstLabel), the loop variable of a label loop
+func (t *trans) strPredOn(v val, p interface{}) (interface{}, bool) {
+	switch v.kind {
+	case "elem":
+		if v.ek == "str" {
+			return wrapChain(v.chain, p), true
+		}
+	case "path":
+		if v.path != "" {
+			noteField(v.path, "str")
+			return T{"strP", v.path, p}, true
+		}
+	case "label":
+		return t.strPredOn(*v.of, T{"pFirstLabel", p})
+	}
+	return nil, false
+}
+
+// lift a boolean combination of element predicates (what inlining a helper into a loop body yields) to an element predicate
+func liftP(c interface{}) (interface{}, bool) {
+	n, ok := c.(T)
+	if !ok || len(n) == 0 {
+		return nil, false
+	}
+	tag, _ := n[0].(string)
+	switch tag {
+	case "const":
+		if n[1] == true {
+			return T{"pTrue"}, true
+		}
+		return T{"pFalse"}, true
+	case "not":
+		a, ok := liftP(n[1])
+		return T{"pNot", a}, ok
+	case "and", "or":
+		a, ok1 := liftP(n[1])
+		b, ok2 := liftP(n[2])
+		return T{map[string]string{"and": "pAnd", "or": "pOr"}[tag], a, b}, ok1 && ok2
+	}
+	if strings.HasPrefix(tag, "p") {
+		return c, true
+	}
+	return nil, false
+}
+
 // an integer term of a tracked value (constant, integer field, iexp)
 func (t *trans) iexpOf(v val, e ast.Expr) (interface{}, bool) {
 	switch v.kind {
@@ -119,7 +165,7 @@ func (t *trans) iexpOf(v val, e ast.Expr) (interface{}, bool) {
 
 // external functions the model takes as parameters (Env): names are shared with harness/bodies.go, ids are positions here
 var externFnNames = []string{"url.Parse.Scheme", "url.Parse.Host", "url.Parse.Opaque", "url.Parse.Path", "url.Parse.Hostname", "strings.ToLower", "strings.ToUpper"}
-var externPredNames = []string{"url.Parse.err", "url.Parse.IsAbs", "url.Parse.User.nil", "mail.ParseAddress.err", "util.IsFQDNOrIP", "util.IsISOCountryCode", "util.IsLDHLabel", "util.IsInTLDMap", "util.HasReservedLabelPrefix", "util.HasXNLabelPrefix"}
+var externPredNames = []string{"url.Parse.err", "url.Parse.IsAbs", "url.Parse.User.nil", "mail.ParseAddress.err", "util.IsFQDNOrIP", "util.IsISOCountryCode", "util.IsLDHLabel", "util.IsInTLDMap", "util.HasReservedLabelPrefix", "util.HasXNLabelPrefix", "net.ParseIP.nil"}
 
 func externID(names []string, n string) int {
 	for i, x := range names {
@@ -418,6 +464,20 @@ func (t *trans) value(e ast.Expr) val {
 		if k, ok := t.keyAssert(x); ok {
 			return k
 		}
+	case *ast.IndexExpr:
+		// strings.Split(s, ".")[0]: Split never returns an empty slice
+		if b, ok := t.tryValue(x.X); ok && b.kind == "labels" && b.s == "all" {
+			if k, ok := t.constOf(x.Index); ok && k.kind == "int" && k.i == 0 {
+				return val{kind: "label", s: "first", of: b.of}
+			}
+		}
+	case *ast.SliceExpr:
+		// labels[1:] (never out of range: there is at least one label)
+		if b, ok := t.tryValue(x.X); ok && b.kind == "labels" && b.s == "all" && x.High == nil && x.Max == nil && x.Low != nil {
+			if k, ok := t.constOf(x.Low); ok && k.kind == "int" && k.i == 1 {
+				return val{kind: "labels", s: "rest", of: b.of}
+			}
+		}
 	case *ast.BinaryExpr:
 		// machine-integer remainder by a non-zero constant
 		if x.Op == token.REM && isIntegerType(t.typeOf(x.X)) {
@@ -430,6 +490,27 @@ func (t *trans) value(e ast.Expr) val {
 			}
 		}
 	case *ast.CallExpr:
+		if name, _ := t.calleeName(x); name == "strings.Split" && len(x.Args) == 2 {
+			if sep, ok := t.constOf(x.Args[1]); ok && sep.kind == "str" && sep.s == "." {
+				if b, ok := t.tryValue(x.Args[0]); ok && ((b.kind == "elem" && b.ek == "str") || (b.kind == "path" && b.path != "" && isStringType(t.typeOf(x.Args[0])))) {
+					return val{kind: "labels", s: "all", of: &b}
+				}
+			}
+		}
+		if name, _ := t.calleeName(x); name == "net.ParseIP" && len(x.Args) == 1 {
+			if b, ok := t.tryValue(x.Args[0]); ok && ((b.kind == "elem" && b.ek == "str") || (b.kind == "path" && b.path != "" && isStringType(t.typeOf(x.Args[0])))) {
+				externID(externPredNames, "net.ParseIP.nil")
+				return val{kind: "extnil", s: "net.ParseIP", of: &b}
+			}
+		}
+		if _, obj := t.calleeName(x); obj != nil {
+			// a module-local boolean helper, bound to a variable: its inlined condition
+			if fn, ok := obj.(*types.Func); ok && fn.Pkg() != nil && strings.HasPrefix(fn.Pkg().Path(), modPath) {
+				if sig := fn.Type().(*types.Signature); sig.Recv() == nil && sig.Results().Len() == 1 && isBoolType(sig.Results().At(0).Type()) {
+					return val{kind: "cond", term: t.inlineBool(fn, x)}
+				}
+			}
+		}
 		if name, _ := t.calleeName(x); name == "math/big.NewInt" && len(x.Args) == 1 {
 			if k, ok := t.constOf(x.Args[0]); ok && k.kind == "int" {
 				return val{kind: "iexp", s: "big", term: T{"lit", k.i}}
@@ -475,7 +556,7 @@ func (t *trans) value(e ast.Expr) val {
 		}
 		if name, _ := t.calleeName(x); (name == "builtin.len" || name == "unicode/utf8.RuneCountInString") && len(x.Args) == 1 && isStringType(t.typeOf(x.Args[0])) {
 			inner := t.value(x.Args[0])
-			if (inner.kind == "elem" && inner.ek == "str") || inner.kind == "path" {
+			if (inner.kind == "elem" && inner.ek == "str") || inner.kind == "path" || inner.kind == "label" {
 				if inner.kind == "path" {
 					noteField(inner.path, "str")
 				}
@@ -698,6 +779,18 @@ func (t *trans) compare(x *ast.BinaryExpr, cn string) interface{} {
 		v := t.value(other)
 		var c interface{}
 		switch v.kind {
+		case "extnil":
+			p, ok := t.strPredOn(*v.of, T{"pExt", externID(externPredNames, v.s+".nil")})
+			if !ok {
+				unsupported("nil test of %s", exprString(other))
+			}
+			if cn == "ne" {
+				if pt := p.(T); strings.HasPrefix(pt[0].(string), "p") {
+					return T{"pNot", p}
+				}
+				return T{"not", p}
+			}
+			return p
 		case "exterr":
 			p := wrapChain(v.of.chain, T{"pExt", externID(externPredNames, v.s+".err")})
 			if cn == "eq" {
@@ -724,6 +817,38 @@ func (t *trans) compare(x *ast.BinaryExpr, cn string) interface{} {
 			return T{"not", c}
 		}
 		return c
+	}
+	// len(strings.Split(s, ".")) OP const: at least one label; more than one iff s contains a '.'
+	if c, ok := stripParen(x.X).(*ast.CallExpr); ok && len(c.Args) == 1 {
+		if name, _ := t.calleeName(c); name == "builtin.len" {
+			if lv, ok := t.tryValue(c.Args[0]); ok && lv.kind == "labels" && lv.s == "all" {
+				k, ok := t.constOf(x.Y)
+				if !ok || k.kind != "int" {
+					unsupported("comparison %s", exprString(x))
+				}
+				hasDot, ok := t.strPredOn(*lv.of, T{"pContains", strT(".")})
+				if !ok {
+					unsupported("comparison %s", exprString(x))
+				}
+				neg := func(c interface{}) interface{} {
+					if ct := c.(T); strings.HasPrefix(ct[0].(string), "p") {
+						return T{"pNot", c}
+					}
+					return T{"not", c}
+				}
+				switch {
+				case (cn == "ge" && k.i <= 1) || (cn == "gt" && k.i <= 0) || (cn == "ne" && k.i <= 0):
+					return T{"const", true}
+				case (cn == "lt" && k.i <= 1) || (cn == "le" && k.i <= 0) || (cn == "eq" && k.i <= 0):
+					return T{"const", false}
+				case (cn == "gt" && k.i == 1) || (cn == "ge" && k.i == 2) || (cn == "ne" && k.i == 1):
+					return hasDot
+				case (cn == "le" && k.i == 1) || (cn == "lt" && k.i == 2) || (cn == "eq" && k.i == 1):
+					return neg(hasDot)
+				}
+				unsupported("comparison %s", exprString(x))
+			}
+		}
 	}
 	// len(list) OP const
 	if p, ok := t.lenArg(x.X); ok {
@@ -805,10 +930,10 @@ func (t *trans) compare(x *ast.BinaryExpr, cn string) interface{} {
 	if l.kind == "measure" && r.kind == "int" {
 		tag := map[string]string{"len": "pLen", "runes": "pRunes"}[l.s]
 		p := T{tag, cn, r.i}
-		if l.of.kind == "elem" {
-			return wrapChain(l.of.chain, p)
+		if r, ok := t.strPredOn(*l.of, p); ok {
+			return r
 		}
-		return T{"strP", l.of.path, p}
+		unsupported("comparison %s", exprString(x))
 	}
 	switch {
 	case l.kind == "path" && r.kind == "int" && fieldKind(t.typeOf(x.X)) == "int":
@@ -829,6 +954,16 @@ func (t *trans) compare(x *ast.BinaryExpr, cn string) interface{} {
 		return c
 	case l.kind == "elem" && l.ek == "int" && r.kind == "int" && cn == "eq":
 		return T{"eInt", r.i}
+	case l.kind == "label" && r.kind == "str" && (cn == "eq" || cn == "ne"):
+		if c, ok := t.strPredOn(l, T{"pEq", strT(r.s)}); ok {
+			if cn == "ne" {
+				if ct := c.(T); strings.HasPrefix(ct[0].(string), "p") {
+					return T{"pNot", c}
+				}
+				return T{"not", c}
+			}
+			return c
+		}
 	}
 	unsupported("comparison %s", exprString(x))
 	return nil
@@ -853,8 +988,10 @@ func (t *trans) callCond(c *ast.CallExpr) interface{} {
 		if len(c.Args) == 2 {
 			a := t.value(c.Args[0])
 			b := t.value(c.Args[1])
-			if a.kind == "elem" && a.ek == "str" && b.kind == "str" {
-				return wrapChain(a.chain, T{map[string]string{"strings.HasPrefix": "pPrefix", "strings.HasSuffix": "pSuffix", "strings.Contains": "pContains"}[name], strT(b.s)})
+			if b.kind == "str" {
+				if r, ok := t.strPredOn(a, T{map[string]string{"strings.HasPrefix": "pPrefix", "strings.HasSuffix": "pSuffix", "strings.Contains": "pContains"}[name], strT(b.s)}); ok {
+					return r
+				}
 			}
 		}
 		unsupported("string predicate %s", exprString(c))
@@ -1244,6 +1381,15 @@ func (t *trans) bind(s ast.Stmt) T {
 			return nil
 		}
 		if x.Tok == token.ASSIGN {
+			if id, ok := x.Lhs[0].(*ast.Ident); ok {
+				obj := t.p.TypesInfo.Uses[id]
+				if old, ok := t.env[obj]; ok && old.kind == "labels" {
+					if nv, ok := t.tryValue(x.Rhs[0]); ok && nv.kind == "labels" {
+						t.env[obj] = nv
+						return nil
+					}
+				}
+			}
 			if sel, ok := x.Lhs[0].(*ast.SelectorExpr); ok && sel.Sel.Name == "Status" {
 				if id, ok := sel.X.(*ast.Ident); ok {
 					obj := t.p.TypesInfo.Uses[id]
@@ -1273,6 +1419,27 @@ func (t *trans) rangeStmt(s *ast.RangeStmt, rest []ast.Stmt, boolFn bool) interf
 	}
 	lk := fieldKind(t.typeOf(s.X))
 	lv := t.value(s.X)
+	if lv.kind == "labels" {
+		// for _, label := range strings.Split(x, ".")[…] { if P(label) { return R } }  ⇒  if <some label of x satisfies P> { R } else { rest }
+		saved := t.snapshot()
+		t.env[t.p.TypesInfo.Defs[s.Value.(*ast.Ident)]] = val{kind: "elem", path: "#labels", ek: "str"}
+		lc := &loopCtx{boolFn: boolFn}
+		p := simplifyP(t.walkLoop(s.Body.List, lc))
+		t.env = saved
+		restT := t.stmts(rest, boolFn)
+		pt := p.(T)
+		if pt[0] == "pFalse" || lc.result == nil {
+			return restT
+		}
+		if pt[0] == "pTrue" {
+			unsupported("label loop that returns unconditionally")
+		}
+		c, ok := t.strPredOn(*lv.of, T{map[string]string{"all": "pAnyLabel", "rest": "pRestLabels"}[lv.s], p})
+		if !ok {
+			unsupported("range over %s", exprString(s.X))
+		}
+		return T{"ite", c, lc.result, restT}
+	}
 	if lv.kind != "path" {
 		unsupported("range over %s", exprString(s.X))
 	}
@@ -1628,6 +1795,9 @@ func (t *trans) condP(e ast.Expr) interface{} {
 		unsupported("element predicate %s", exprString(e))
 	}
 	if tag, _ := c[0].(string); !strings.HasPrefix(tag, "p") {
+		if l, ok := liftP(c); ok {
+			return l
+		}
 		unsupported("condition %s inside a loop does not speak about the element", exprString(e))
 	}
 	return c
@@ -1693,7 +1863,13 @@ func (t *trans) bindLoop(as *ast.AssignStmt) {
 			unsupported("loop body shape")
 		}
 		v := t.value(as.Rhs[0])
-		if v.kind != "measure" && !(v.kind == "elem" && v.ek == "str") {
+		if v.kind == "cond" {
+			l, ok := liftP(v.term)
+			if !ok {
+				unsupported("loop body: binding of %s", exprString(as.Rhs[0]))
+			}
+			v.term = l
+		} else if v.kind != "measure" && !(v.kind == "elem" && v.ek == "str") && v.kind != "labels" && v.kind != "label" {
 			unsupported("loop body: binding of %s", exprString(as.Rhs[0]))
 		}
 		t.env[t.p.TypesInfo.Defs[id]] = v
